@@ -24,7 +24,7 @@ KERNELS = ()
 RULE = ("cases = generated dataclass (1..4 fields, each 1-D int / float or 2-D of width 1..3) x common length 0..5 (or deliberately "
         "unequal lengths for the constructor) x operation (constructor, len, index with int / slice / list / mask incl. out-of-range, "
         "iteration, concatenate of 1..3 objects, ==, astype to a narrower / incompatible class, VarLenArray concatenate of 1..3 "
-        "matrices of different widths); distinct = distinct (fields, operation); non-trivial = length >= 2 and >= 2 fields")
+        "matrices of different widths); plus tables whose fields have other element types (floats, uint64 beyond 2**63, bool, datetime64 / timedelta64, narrow integers): entry k by iteration, integer index, one-row list / slice and concatenation, byte for byte; distinct = distinct (fields, operation); non-trivial = length >= 2 and >= 2 fields")
 EXHAUSTIVE = {"quick": False, "thorough": False}
 CORRESPONDENCE_ONLY = ["dtypes of fields", "broadcasting inside a field comparison (fields of different widths)"]
 ASSUMPTIONS = []
